@@ -7,6 +7,9 @@ UNITS = {
   # pubfree (thread mode): cross-thread free / privatisation / re-allocation on one slab block
   'pub2': dict(wrapper='w_pub.cpp', mode='lcs', unroll=2, cxxflags=MCXX, prune=True, cut=['adjustPositionInBin'],
               threads={'vp_thr_free': ['a', 'b'], 'vp_thr_owner': ['o'], 'vp_thr_owner2': ['o'], 'vp_thr_adopt': ['o']}),
+  # reallocAligned real (frontend.cpp only: getBackRef / remap / getMaxBinnedSize are externals); inner allocator and free cut
+  'realloc': dict(wrapper='w_realloc.cpp', mode='seq', cxxflags=MCXX, ptrhooks=True, prune=True, inline_threshold=200,
+                  cut=['internalPoolMalloc', 'allocateAligned', 'internalPoolFree', 'doInitialization']),
 }
 HARNESSES = [
   dict(name='sizeclass', unit='front', harness='h_sizeclass.c', cbmc=['--unwind', '40'], scenarios=[{'PART': 1}, {'PART': 2}, {'PART': 3, 'CLASSES': ','.join(map(str, CLASSES))}],
@@ -28,9 +31,13 @@ HARNESSES = [
   dict(name='pubfree_3t', unit='pub2', harness='h_pub.c', defines={'ROUNDS': 2}, scenarios=[{'SC': 1}, {'SC': 4}], tiers=['thorough'], timeout=3600, cbmc=['--unwind', '8', '--object-bits', '12'],
        desc='pubfree with three threads: free(o0) || free(o1) || owner, and on an orphaned block free || free || adopter; same oracle',
        bounds={'threads': 3, 'free_rounds': 2, 'forced_rounds': 2, 'unroll': 2, 'objects': 3}),
+  dict(name='realloc_inplace', unit='realloc', harness='h_realloc.c', scenarios=[{'KIND': 1}, {'KIND': 0}], timeout=900, cbmc=['--unwind', '20', '--object-bits', '12'],
+       desc='reallocAligned one step: in-place decision for large objects (room measured from the USER pointer to the end of the backend block, alignment, huge-object halving rule) and slab objects (findObjectSize): same pointer => new size fits, headers intact, msize consistent; new block => one allocation, exactly min(old usable,new) bytes copied from the old pointer, old block freed once after the copy; failure => NULL, old object untouched',
+       bounds={'newSize': 'full 64 bit', 'alignment': '0 or 2^0..2^63', 'large': 'unalignedSize < 2^60, objectSize and cache-line shuffle offset symbolic, block address symbolic', 'slab': 'every size class (symbolic), every object position, interior 128-aligned pointers for fitting classes',
+               'cut': 'internalPoolMalloc, allocateAligned, internalPoolFree; stubs: remap, getMaxBinnedSize, getBackRef; memcpy observer'}),
 ]
 MANIFEST = dict(
-  level_text='Bounded symbolic execution of the real tbbmalloc front-end kernels: size-class functions for every request size; one inductive step of the slab (Block) operations from an arbitrary state satisfying the representation invariant, for every size class; allocateAligned strategy selection for symbolic size/alignment with the inner allocator cut to its contract; cross-thread free of slab objects (freePublicObject || owner privatisation / orphan adoption) on one block under all bounded interleavings of 2-3 threads. Sequential call histories are covered by the inductive-step argument, not by exploration.',
+  level_text='Bounded symbolic execution of the real tbbmalloc front-end kernels: size-class functions for every request size; one inductive step of the slab (Block) operations from an arbitrary state satisfying the representation invariant, for every size class; allocateAligned strategy selection for symbolic size/alignment with the inner allocator cut to its contract; reallocAligned in-place / copy / free decision (large and slab objects) as one step; cross-thread free of slab objects (freePublicObject || owner privatisation / orphan adoption) on one block under all bounded interleavings of 2-3 threads. Sequential call histories are covered by the inductive-step argument, not by exploration.',
   level_note='Cut points and stub contracts listed in evidence; whole-allocator histories through scalable_malloc and the backend/large-object cache are outside; cross-thread frees are covered only within the bounds of pubfree (one block, 2-3 threads, 2 rounds). Trusted: clang-14 IR, tools/ir2c.py (validated per run against the real C++ by the selftest differential), cbmc.',
 )
 OUTSIDE = ['whole-allocator call histories through scalable_malloc (initialisation, backend regions)', 'large-object cache and backend coalescing', 'cross-thread frees beyond the pubfree bounds (one block, <=2 concurrent frees, 2 rounds)', 'thread-exit orphan adoption end to end']
